@@ -684,6 +684,14 @@ func (H) Run(c *core.RunCtx) {
 		if ack > hw {
 			c.Violate("C08/acked-beyond-follower-append", "leader's acknowledged position for the follower moved %d -> %d but the follower never appended beyond %d", cl.prevAck, ack, hw)
 		}
+		// position by position: the follower's counter can be moved without data (the handshake's Reset), so every
+		// newly acknowledged position must be one that a handler of the follower really appended at some time
+		// (a later loss of the follower's log does not make that wrong)
+		for i := cl.prevAck + 1; i <= ack && !c.Violated(); i++ {
+			if _, appended := cl.appendedBy[i]; !appended && i >= 0 {
+				c.Violate("C08/acked-beyond-follower-append", "leader's acknowledged position for the follower moved %d -> %d, but position %d was never appended by the follower (its append counter was moved past it)", cl.prevAck, ack, i)
+			}
+		}
 		cl.prevAck = ack
 	}
 	defer func() { sim.OnStep = nil }()
